@@ -60,11 +60,10 @@ def move_functions(tree):
     names = set()
     for n in walk_local(sel):
         if isinstance(n, (ast.Assign, ast.AnnAssign)) and isinstance(n.value, ast.Dict):
-            tgt = n.targets[0] if isinstance(n, ast.Assign) else n.target
-            if path_of(tgt) == "sh_moves":
-                for v in n.value.values:
-                    if isinstance(v, ast.Name):
-                        names.add(v.id)
+            # the dispatch table: a dict literal whose values are all names of functions of this module
+            vals = [v.id for v in n.value.values if isinstance(v, ast.Name)]
+            if vals and len(vals) == len(n.value.values) and all(tree.modules[TIS].funcs.get(v) is not None for v in vals):
+                names.update(vals)
         if isinstance(n, ast.Call) and isinstance(n.func, ast.Name) and n.func.id.endswith("_swap_zero"):
             names.add(n.func.id)
     if len(names) < 4:
